@@ -23,6 +23,33 @@ pub mod vs {
         pub fn mismatches() -> usize {
             VALS.with(|v| v.borrow().2)
         }
+        /// entry point of the native replay: harness name and witness file come from the environment
+        pub fn run_entry(table: &[(&str, fn())]) {
+            let name = std::env::var("VERIF_HARNESS").expect("VERIF_HARNESS");
+            let wf = std::env::var("VERIF_WITNESS").expect("VERIF_WITNESS");
+            let txt = std::fs::read_to_string(&wf).expect("witness file");
+            let mut vals: Vec<Vec<u8>> = Vec::new();
+            for line in txt.lines() {
+                let line = line.trim();
+                if line.starts_with('#') || line.is_empty() {
+                    continue;
+                }
+                if line == "-" {
+                    vals.push(Vec::new());
+                    continue;
+                }
+                vals.push(line.split(',').map(|s| s.trim().parse::<u8>().unwrap()).collect());
+            }
+            load(vals);
+            for (n, f) in table {
+                if *n == name {
+                    println!("VERIF-REPLAY: START {}", name);
+                    f();
+                    return;
+                }
+            }
+            panic!("unknown harness {}", name);
+        }
         pub fn pop(n: usize) -> Vec<u8> {
             VALS.with(|v| {
                 let mut g = v.borrow_mut();
